@@ -176,6 +176,15 @@ theorem c08_src_no_wrong_completion (s : Proto) (d : List UInt8) (fid : Nat) (v 
       name ≠ "invalidCommand" :=
   result_only_own_reply s d fid v hp hr
 
+/-- **the receive entry point contains everything** (source level): the generated `EZSP.frame_received`
+(BV/Gen/SrcEzspRx.lean) around the generated `__call__` never raises, for every byte string and every state whose pending entries
+point to existing futures: the frame is ignored (no handler configured, or empty), or the handler's effects stand and whatever it
+raised is swallowed -/
+theorem c08_src_guard_contains (s : Proto) (d : List UInt8) (hw : BV.Proofs.Src.Cmd.WF s) :
+    BV.Src.EzspRx.frame_received d s =
+      (.ok (), if BV.Proofs.Src.Cmd.ignored s d then s else (handler_call d s).2) :=
+  BV.Proofs.Src.Cmd.frameReceived_eq s d hw
+
 /-- **a callback is made only for a frame that decodes** (source level), exactly once, and only when no entry waits under the
 frame's sequence number -/
 theorem c08_src_callback_only_if_decodes (s : Proto) (d : List UInt8) (hne : (handler_call d s).2.trace ≠ s.trace) :
